@@ -89,9 +89,11 @@ claimed = {
          "Not covered: loops over arrays without an explicit variant (range loops terminate by construction), cost of external calls, polynomial composition argument.",
          "decreases/bound clauses + allocation obligations over go/ssa + SMT"),
  'C11': ("Proved with the ghost rune table (code-point boundaries of every string): slice returns exactly the code-point window, sliceStep the right number of code points, length counts code points, split on the empty separator yields one code point per element, "
-         "pad_* pads to max(width, code points) and requires a one-code-point pad, find_* results are code-point counts within the subject; every string stored into a result value starts and ends on code-point boundaries (valid UTF-8 out for valid UTF-8 in). "
-         "Assumed: A4 (matches of valid needles are boundary aligned), A7. Not covered: which code points a stepped slice / reverse selects, ordering of strings beyond byte order.",
-         "contracts over a ghost rune table + VC generation over go/ssa + SMT"),
+         "pad_* pads to max(width, code points) and requires a one-code-point pad, find_* results are code-point counts within the subject. Sweep over every function reachable from the API: every string the library turns into a value and every key it puts into an object "
+         "starts and ends on code-point boundaries of its text (valid UTF-8 out for valid UTF-8 in) - including the lexer (position and token values stay on boundaries), the literal decoders (raw strings and quoted identifiers keep whole code points; a byte copied "
+         "with WriteByte is accounted for together with the bytes that follow it) and the strings kept in the AST. Assumed: the expression text handed to the API is a whole string; A4 (matches of valid needles are boundary aligned), A7; facts about Go's UTF-8 segmentation "
+         "(an ASCII byte is never inside a longer unit). Not covered: which code points a stepped slice / reverse selects, ordering of strings beyond byte order.",
+         "contracts over a ghost rune table + utf8 sweep obligations + VC generation over go/ssa + SMT"),
  'C13': ("Proved: sort_by calls a stable sort on arrays it owns, Less is strictly the decimal128.Compare / byte order of the keys, Swap swaps items and keys together; the key of every element including a single one is evaluated (caller's scope) and must be a string or number; "
          "max/min return an element value that no other element exceeds (resp. precedes) and fail exactly when a later element has another type; max_by/min_by return an element of the input. Assumed: contract of sort.Stable. Not covered: sort (closure comparator) functional clauses, extremality for *_by.",
          "contracts + loop invariants + VC generation over go/ssa + SMT"),
